@@ -1,6 +1,7 @@
 package main
 
-// Go→Lean translator for the SYNTAX layer: lib/syntax/directives, lib/syntax/scanner, lib/syntax/parser.
+// Go→Lean translator for the SYNTAX layer: lib/syntax/directives, lib/syntax/scanner, lib/syntax/parser, and lib/syntax/printer (the unit and
+// what it adds — io.Writer, fmt.Fprintf, type switches — are in trans_syntax_printer.go).
 //
 // Same idea as trans*.go (definitions regenerated from /repo's source on every run, each proved equal to the hand-written model:
 // lean/Knut/FactsAgree/TransScanner.lean, TransParser.lean … TransParser4.lean, ending in ParseFile_agrees), but a reading of Go of its own, because this layer needs what the
@@ -835,7 +836,7 @@ func tsRun(repo string) (map[string]string, []string) {
 			fmt.Fprintf(&index, "  (%s, %s, %s)", trLeanStr(u.mod), trLeanStr(f.leanName), trLeanStr(status))
 		}
 		var b strings.Builder
-		fmt.Fprintf(&b, "/- GENERATED by `harness extract` (harness/trans_syntax*.go) from %s/*.go on every run of bin/check. Do not edit.\n   Meaning of the primitives: lean/Knut/GoSem/Syntax.lean; agreement with the model: lean/Knut/FactsAgree/TransScanner.lean, TransParser.lean. -/\n", u.pkg)
+		fmt.Fprintf(&b, "/- GENERATED by `harness extract` (harness/trans_syntax*.go) from %s/*.go on every run of bin/check. Do not edit.\n   Meaning of the primitives: lean/Knut/GoSem/Syntax.lean; agreement with the model: lean/Knut/FactsAgree/Trans%s*.lean (TransScanner, TransParser…TransParser4, TransPrinter, TransPrinter2). -/\n", u.pkg, u.mod)
 		b.WriteString("import Knut.GoSem.Basic\nimport Knut.GoSem.Syntax\n")
 		var imps []string
 		for v := range t.imports[u] {
